@@ -286,6 +286,22 @@ func Self() *Task {
 	return s.self()
 }
 
+// Touch makes the calling goroutine a task if it is not one yet (parking it until the scheduler
+// picks it). The simulated network calls it at the entry of every operation, before looking at
+// any state, so that a goroutine started by library code becomes schedulable at its first I/O
+// whether or not that I/O would block.
+//
+//go:norace
+func Touch() {
+	s := cur.Load()
+	if s == nil {
+		return
+	}
+	if t := s.self(); t != nil {
+		t.fresh = false
+	}
+}
+
 // Yield is a scheduling point: the calling task parks until the scheduler releases it.
 //
 //go:norace
